@@ -18,6 +18,8 @@ def run(run, model):
     marker.report_rule(run, model, "C11.release-on-all-exits", marker.MARKER_REGIONS_ALL, "no exit is reached with the marker held (a leaked marker would leave later, non re-entrant calls unchecked)", as_rule="C10.no-sticky")
     from . import inv
     run.do(inv.selection, model, "C10.wrapped-members", "C10.wrapped-members-source")
+    # the marker and the invariants belong to the object the method was called on
+    run.do(inv.find_self, model, "C10.find-self")
     from . import twins
     run.do(twins.body_await, model, "C10.body-unheld-async")
     run.minimum("C10.own-release", 5, "two checker wrappers, constructor wrapper, two method wrappers")
